@@ -354,3 +354,49 @@ def ufarr_profile(env):
     p.op("eqa", [AR, AR], BOOL, lambda m, t, w: m.Equals(t, w))
     p.op("not", [BOOL], BOOL, lambda m, t: m.Not(t))
     return p
+
+
+def nary5_profile(env):
+    """n-ary operators with five arguments (Boolean, Int, Real)"""
+    p = Profile("nary5", env)
+    m = p.m
+    a, b = p.sym("a", BOOL), p.sym("b", BOOL)
+    x, y = p.sym("x", INT), p.sym("y", INT)
+    r = p.sym("r", REAL)
+    p.leaf(BOOL, a, b, m.TRUE(), m.FALSE(), m.Not(a))
+    p.leaf(INT, x, y, m.Int(0), m.Int(1), m.Int(-2), m.Times(x, m.Int(-1)))
+    p.leaf(REAL, r, m.Real(0), m.Real(Fraction(1, 2)), m.Real(-1), m.Times(r, m.Real(2)))
+    p.op("and5", [BOOL] * 5, BOOL, lambda m, *t: m.And(*t))
+    p.op("or5", [BOOL] * 5, BOOL, lambda m, *t: m.Or(*t))
+    p.op("plus5", [INT] * 5, INT, lambda m, *t: m.Plus(*t))
+    p.op("times5", [INT] * 5, INT, lambda m, *t: m.Times(*t))
+    p.op("rplus5", [REAL] * 5, REAL, lambda m, *t: m.Plus(*t))
+    p.op("rtimes5", [REAL] * 5, REAL, lambda m, *t: m.Times(*t))
+    return p
+
+
+def widebv_dom(w):
+    """a finite value pool for a bit-vector width whose values cannot be enumerated"""
+    top = 1 << w
+    return {("BV", w): (0, 1, 2, top >> 1, (top >> 1) - 1, (top >> 1) + 1, top - 1, top - 2, 0x5A5A5A5A5A5A5A5A5 % top)}
+
+
+def widebv_profile(env, w):
+    """all bit-vector operators at a wide width over two symbols and the boundary constants"""
+    top = 1 << w
+    p = bv_profile(env, (w,), consts=(0, 1, top >> 1, top - 1), nsyms=2)
+    # the generic table lists every extract range / rotation of small widths: keep the boundary ones
+    keep = []
+    for o in p.ops:
+        n = o.name
+        if n.startswith("extract"):
+            lo, hi = [int(t) for t in n[len("extract"):].split("_")[:2]]
+            if not ((lo, hi) in ((0, 0), (0, w - 1), (w - 1, w - 1), (1, w - 2), (0, 31), (32, w - 1), (31, 32))):
+                continue
+        if n.startswith(("rol", "ror")):
+            k = int(n[3:].split("_")[0])
+            if k not in (0, 1, w - 1, w, 31, 32):
+                continue
+        keep.append(o)
+    p.ops = keep
+    return p
